@@ -241,4 +241,6 @@ Proof.
     + left. reflexivity.
     + left. destruct (task_done st1); [exact F0|]. eapply fsame_trans; [|apply fsame_task_cancel].
       unfold note_ext. destruct (in_shield _); reflexivity.
+    + left. destruct (nth_scope st1 k) as [sid|]; [|exact F0].
+      exact (fsame_trans _ _ _ F0 (fsame_scope_cancel st1 sid)).
 Qed.
